@@ -27,6 +27,7 @@ func runC08(c *Check, tier string) {
 	// blob reports success while the upload it relies on can still fail: dangling reference in the remote)
 	ruleR07e(c, "R08f")
 	rulePipeErrorPropagated(c, "R08g")
+	ruleReaderConsumedOnce(c, "R08h", "caching", "output")
 }
 
 type wrapperInfo struct {
